@@ -295,6 +295,8 @@ func checkC03(c *Ctx) {
 
 	checkLeaseCleared(c, "C03.R4", nil)
 	// R5: the only construct that takes a lease away without the holder's lease id is the sweep, and it must test lease_until <= now
+	c.Rule("C03.R6", "the lease deadline SQLite stores is representable: before now.Add(ttl) is converted to Unix nanoseconds for lease_until, the deadline is compared with a fixed instant or the TTL with a constant (clamped), so an over-long TTL cannot wrap into an already expired lease")
+	checkLeaseDeadlineRepresentable(c, "C03.R6")
 	c.Rule("C03.R5", "a lease is taken away without its holder only by the sweep, whose statement tests state='leased' and lease_until <= now (memory: the LeaseUntil expiry edge)")
 	nSweep := 0
 	seenSweep := map[*SQLStmt]bool{}
